@@ -99,6 +99,10 @@ fn main() {
             _ => { i += 1; }
         }
     }
+    if mode == "deep" {
+        let depth: usize = args.get(3).and_then(|d| d.parse().ok()).unwrap_or(1000);
+        std::process::exit(checks_parse::deep_child(&prop, depth));
+    }
     let thorough = tier == "thorough";
     let mut rep = Report::new(&prop);
     if mode == "replay" {
